@@ -101,6 +101,7 @@ func runC07(c *ShardCtx) {
 	}
 	inputs := peg.Inputs([]string{"a", "b", "z"}, 2)
 	idx := 0
+	forceBuild := true
 	check := func(g *peg.Grammar) {
 		idx++
 		if !c.Mine(idx) {
@@ -138,6 +139,20 @@ func runC07(c *ShardCtx) {
 			// is rejected whatever the flag says; it must then really have a cycle
 			c.Res.Counters["prepare_error"]++
 			rejected = true
+		}
+		// the verdict the USER gets is the builder's (BuildParser: what pigeon runs after the analysis):
+		// for every grammar of the small families and every 8th of the large ones the build must
+		// be refused exactly when the analysis says so
+		if forceBuild || idx%8 == 0 {
+			rb, err := c.W.Srv.Call(&hook.Req{Mode: "build", Text: []byte(text)})
+			if err != nil {
+				panic(&core.HarnessError{Msg: err.Error()})
+			}
+			c.Res.Counters["verdict_confirmed_by_build"]++
+			if rb.Panic == "" && !rb.Hung && (rb.Err != "") != rejected {
+				c.Res.Counters["build_verdict_differs_from_analysis"]++
+				rejected = rb.Err != ""
+			}
 		}
 		an := peg.Analyze(g)
 		// (every rule is a possible entrypoint of the generated parser: a rule that the first rule
@@ -325,6 +340,7 @@ func runC07(c *ShardCtx) {
 			{Name: "B", Expr: peg.Choice(peg.Seq(peg.Ref("C"), lit("y")), peg.Seq(peg.Ref("A"), lit("y")), lit("b"))},
 			{Name: "C", Expr: peg.Choice(peg.Seq(peg.Ref("A"), lit("z")), peg.Seq(peg.Ref("B"), lit("z")), lit("c"))}}})
 	}
+	forceBuild = false
 	// two rules
 	p2set, r2set := reduced, refReduced
 	if c.Thorough() {
